@@ -15,7 +15,7 @@ mod verif_kani_shims {
         let (t, last, this): (u32, u32, u32) = (kani::any(), kani::any(), kani::any());
         let real = Tick::new(t).is_newer_than(Tick::new(last), Tick::new(this));
         assert!(real == (age(this, last) > age(this, t)));
-        assert!(bevy::ecs::component::MAX_CHANGE_AGE == MAX_CHANGE_AGE);
+        assert!(bevy::ecs::change_detection::MAX_CHANGE_AGE == MAX_CHANGE_AGE);
         kani::cover!(real && this < t);
         kani::cover!(!real && this.wrapping_sub(t) >= MAX_CHANGE_AGE);
     }
